@@ -988,6 +988,33 @@ def propagate_param_copies(tree: ast.Module) -> int:
                         nm = (al.asname or al.name).split(".")[0]
                         stores[nm] = stores.get(nm, 0) + 1
             found = None
+            # locals bound exactly once by a plain top-level assignment: as stable as a parameter from there on
+            top_of: Dict[int, int] = {}
+            for i_, top in enumerate(fn.body):
+                for x in ast.walk(top):
+                    top_of[id(x)] = i_
+            stable_at: Dict[str, int] = {}
+            for i_, top in enumerate(fn.body):
+                if isinstance(top, ast.Assign) and len(top.targets) == 1 and isinstance(top.targets[0], ast.Name) and stores.get(top.targets[0].id, 0) == 1 and top.targets[0].id not in params:
+                    stable_at[top.targets[0].id] = i_
+            nested_names = {x.id for d in ast.walk(fn) if d is not fn and isinstance(d, (ast.FunctionDef, ast.AsyncFunctionDef, ast.Lambda)) for x in ast.walk(d) if isinstance(x, ast.Name)}
+
+            def _src_ok(st):
+                p_, a_ = st.value.id, st.targets[0].id
+                if p_ in params:
+                    return stores.get(p_, 0) == 0
+                if p_ not in stable_at or stable_at[p_] >= top_of.get(id(st), -1) or a_ in nested_names or p_ in nested_names:
+                    return False
+                # every read of the alias follows its binding in the text (no use in an earlier part of a loop body)
+                seen_store = False
+                for x in _ordered_names(fn):
+                    if x.id == a_:
+                        if not isinstance(x.ctx, ast.Load):
+                            seen_store = True
+                        elif not seen_store:
+                            return False
+                return True
+
             for parent_ in ast.walk(fn):
                 for fld in ("body", "orelse", "finalbody"):
                     lst = getattr(parent_, fld, None)
@@ -995,7 +1022,7 @@ def propagate_param_copies(tree: ast.Module) -> int:
                         continue
                     for st in lst:
                         if (isinstance(st, ast.Assign) and len(st.targets) == 1 and isinstance(st.targets[0], ast.Name) and isinstance(st.value, ast.Name)
-                                and st.value.id in params and stores.get(st.value.id, 0) == 0 and stores.get(st.targets[0].id, 0) == 1 and st.targets[0].id not in params):
+                                and stores.get(st.targets[0].id, 0) == 1 and st.targets[0].id not in params and st.value.id != st.targets[0].id and _src_ok(st)):
                             found = (lst, st)
                             break
                     if found:
